@@ -15,7 +15,13 @@ import (
 
 // external functions that may be handed a view of the block buffer because
 // they only read it while they run.
-var nonRetaining = map[string]bool{"fmt.Errorf": true, "fmt.Sprintf": true, "errors.New": true, "bytes.Equal": true, "strings.Cut": true}
+var nonRetaining = map[string]bool{"fmt.Errorf": true, "fmt.Sprintf": true, "errors.New": true, "bytes.Equal": true, "strings.Cut": true,
+	// copies: what they return shares nothing with the argument
+	"strings.Clone": true, "bytes.Clone": true,
+	// predicates and searches: what they return is a number or a truth value
+	"strings.HasPrefix": true, "strings.HasSuffix": true, "strings.Contains": true, "strings.Index": true, "strings.IndexByte": true, "strings.EqualFold": true, "strings.Compare": true,
+	"bytes.HasPrefix": true, "bytes.HasSuffix": true, "bytes.Contains": true, "bytes.Index": true, "bytes.IndexByte": true, "bytes.Compare": true,
+	"unicode/utf8.Valid": true, "unicode/utf8.ValidString": true, "unicode/utf8.RuneCount": true, "unicode/utf8.RuneCountInString": true}
 
 type alEnv struct {
 	P *Program
